@@ -29,10 +29,10 @@ type c10T struct {
 
 // c10Op is one operation of the alphabet.
 type c10Op struct {
-	Kind   string `json:"kind"` // update, scrape, restart, tick
-	A      []c10T `json:"a,omitempty"`
-	Hash   uint64 `json:"hash,omitempty"`
-	N      int    `json:"n,omitempty"` // samples; <0: failure
+	Kind string `json:"kind"` // update, scrape, restart, tick
+	A    []c10T `json:"a,omitempty"`
+	Hash uint64 `json:"hash,omitempty"`
+	N    int    `json:"n,omitempty"` // samples; <0: failure
 }
 
 var c10Est = map[uint64][2]int64{1: {10, 12}, 2: {20, 20}, 3: {5, 5}}
